@@ -5,6 +5,7 @@ package auparse
 import (
 	"strconv"
 	"strings"
+	"time"
 )
 
 func init() {
@@ -202,4 +203,150 @@ func VH_SaddrTotal() {
 	if m != nil {
 		vUseMessage(m, "C05")
 	}
+}
+
+// ---- C04: header round trip ---------------------------------------------------------------
+
+func init() {
+	vEntries["VH_Header"] = VH_Header
+	vEntries["VH_HeaderBad"] = VH_HeaderBad
+}
+
+func vDigits(name string, n int) string {
+	s := vStr(name, n)
+	for i := 0; i < len(s); i++ {
+		vAssume(vAnd(s[i] >= '0', s[i] <= '9'))
+	}
+	return s
+}
+
+// vHorner is the value of a digit string, by construction (no parsing).
+func vHorner(d string) uint64 {
+	var v uint64
+	for i := 0; i < len(d); i++ {
+		v = v*10 + uint64(d[i]-'0')
+	}
+	return v
+}
+
+var vHostileBodies = []string{
+	`record_type=FAKE sequence=9 raw_msg=z tags=q error=e @timestamp=1 a=b`,
+	`msg=audit(2.000:3): x=y`,
+	`arch=c000003e syscall=2 success=yes exit=3 ) : ( . msg='op=x res=success'`,
+	"caf\xc3\xa9=\xff\xfe key=\"a=b\"",
+	``,
+}
+
+var vNamedTypes = []AuditMessageType{AUDIT_SYSCALL, AUDIT_PATH, AUDIT_AVC, AUDIT_EOE, AUDIT_USER_LOGIN, AUDIT_GET}
+
+func vPickType() AuditMessageType {
+	switch vParam("typemode", 0) {
+	case 0:
+		return vNamedTypes[vChoose("type", len(vNamedTypes))]
+	case 1: // codes outside the named ranges: rendered as UNKNOWN[n]
+		t := vU16("type")
+		vAssume(vOr(t < 1000, t >= 2600))
+		return AuditMessageType(t)
+	}
+	return AuditMessageType(vU16("type"))
+}
+
+// VH_Header: a written header parses back to exactly what was written.
+func VH_Header() {
+	t := vPickType()
+	secD := vDigits("sec", vParam("secdigits", 10))
+	msD := vDigits("ms", 3)
+	seqD := vDigits("seq", vParam("seqdigits", 10))
+	S, MS, N := vHorner(secD), vHorner(msD), vHorner(seqD)
+	vAssume(S < 1<<34)
+	vAssume(N < 1<<32)
+	var body string
+	if hb := vParam("hostile", -1); hb >= 0 {
+		body = vHostileBodies[hb]
+	} else {
+		body = vASCII("body", vLen("bodylen", vParam("bodymax", 3)))
+	}
+	name := t.String()
+	if vParam("lower", 0) != 0 {
+		name = strings.ToLower(name)
+	}
+	text := "audit(" + secD + "." + msD + ":" + seqD + "): " + body
+	line := "type=" + name + " msg=" + text
+	m, err := ParseLogLine(line)
+	vAssert(err == nil && m != nil, "C04/written-header-rejected")
+	if m == nil {
+		return
+	}
+	vAssert(m.RecordType == t, "C04/record-type")
+	vAssert(m.Timestamp.Unix() == int64(S), "C04/timestamp-seconds")
+	vAssert(m.Timestamp.Nanosecond() == int(MS)*1000000, "C04/timestamp-milliseconds")
+	vAssert(m.Timestamp.Location() == time.UTC, "C04/timestamp-not-utc")
+	vAssert(m.Sequence == uint32(N), "C04/sequence")
+	vAssert(m.RawData == strings.TrimSpace(text), "C04/raw-data")
+	// Parse agrees with ParseLogLine
+	m2, err2 := Parse(t, text)
+	vAssert(err2 == nil && m2 != nil, "C04/parse-disagrees-with-parseLogLine")
+	if m2 != nil {
+		vAssert(m2.RecordType == m.RecordType && m2.Sequence == m.Sequence && m2.RawData == m.RawData &&
+			m2.Timestamp.Equal(m.Timestamp), "C04/parse-disagrees-with-parseLogLine")
+	}
+	// ToMapStr reports the header, whatever the body says
+	ms := m.ToMapStr()
+	vAssert(vSameAny(ms["record_type"], t.String()), "C04/mapstr-record-type")
+	canon := seqD // the digits that were written, without leading zeros
+	for len(canon) > 1 && canon[0] == '0' {
+		canon = canon[1:]
+	}
+	vAssert(vSameAny(ms["sequence"], canon), "C04/mapstr-sequence")
+	vAssert(vSameAny(ms["raw_msg"], m.RawData), "C04/mapstr-raw-msg")
+	vAssert(vSameAny(ms["@timestamp"], m.Timestamp.UTC().String()), "C04/mapstr-timestamp")
+}
+
+// VH_HeaderBad: malformed headers yield an error and no message.
+func VH_HeaderBad() {
+	secD, msD, seqD := "1490137971", "011", "50406"
+	mode := vParam("mode", 0)
+	switch mode {
+	case 0: // sequence out of the uint32 range
+		seqD = vDigits("seq", vParam("seqdigits", 10))
+		vAssume(vHorner(seqD) >= 1<<32)
+	case 1: // one byte of one field is neither a digit, a sign nor a delimiter
+		f := vChoose("field", 3)
+		c := vU8("bad")
+		vAssume(c < 0x80)
+		vAssume(!vAnd(c >= '0', c <= '9'))
+		vAssume(vAnd(c != '+', c != '-'))
+		vAssume(vAnd(vAnd(c != '(', c != ')'), vAnd(c != '.', c != ':')))
+		switch f {
+		case 0:
+			p := vChoose("pos", len(secD))
+			secD = secD[:p] + string([]byte{c}) + secD[p+1:]
+		case 1:
+			p := vChoose("pos", len(msD))
+			msD = msD[:p] + string([]byte{c}) + msD[p+1:]
+		case 2:
+			p := vChoose("pos", len(seqD))
+			seqD = seqD[:p] + string([]byte{c}) + seqD[p+1:]
+		}
+	case 2: // an empty field
+		switch vChoose("field", 3) {
+		case 0:
+			secD = ""
+		case 1:
+			msD = ""
+		case 2:
+			seqD = ""
+		}
+	case 3: // a sign in the sequence field
+		seqD = string([]byte{"+-"[vChoose("sign", 2)]}) + seqD
+	}
+	text := "audit(" + secD + "." + msD + ":" + seqD + "): a=b"
+	if mode == 4 { // every truncation that cuts the header
+		closing := strings.IndexByte(text, ')')
+		text = text[:vChoose("cut", closing+1)]
+	}
+	m, err := Parse(AUDIT_SYSCALL, text)
+	vAssert(err != nil && m == nil, "C04/malformed-header-accepted")
+	m, err = ParseLogLine("type=SYSCALL msg=" + text)
+	vAssert(err != nil && m == nil, "C04/malformed-header-accepted")
 }
